@@ -10,6 +10,7 @@
 Require Import Coq.Strings.String Coq.Lists.List Coq.Bool.Bool.
 Require Import GAApi.Syntax GAApi.ModelTypes GAApi.ModelStatic GAApi.TypesProofs.
 Require Import GAApi.Gen.GenTypes GAApi.Gen.GenWrite GAApi.Checks.C12Checks.
+Require GAApi.ModelSigs GAApi.Gen.GenSigs.
 Import ListNotations.
 Open Scope string_scope.
 
@@ -96,6 +97,15 @@ Theorem C12_impl_args_keep_brand :
 Proof. exact (conj impl_brand_lifted unsize_impls_present). Qed.
 Print Assumptions C12_impl_args_keep_brand.
 
+(** Every public function (inherent, trait impl or provided method) takes all its branded arguments --
+    the context, pointers, weak pointers, root sets, caches, builders, the self type -- at one and the
+    same named lifetime: no function lets a caller combine the context of one arena with a pointer of
+    another. *)
+Theorem C12_args_share_brand :
+  forall f, In f GenSigs.pub_fns -> ModelSigs.args_share_brand decls BRANDED f = true.
+Proof. exact args_brand_lifted. Qed.
+Print Assumptions C12_args_share_brand.
+
 Theorem C12_no_unknown_syntax : GenTypes.unknown_items = [].
 Proof. exact no_unknown. Qed.
 Print Assumptions C12_no_unknown_syntax.
@@ -141,3 +151,11 @@ Proof. vm_compute. reflexivity. Qed.
 
 Example C12_impl_args_discriminates : impl_args_brand_ok rebranding_impl = false.
 Proof. exact rebranding_impl_fails. Qed.
+
+Example C12_args_share_brand_nonvacuous :
+  Nat.leb 30 (List.length (filter (fun f => Nat.ltb 1 (List.length (ModelSigs.fn_brands decls BRANDED f))) GenSigs.pub_fns)) = true.
+Proof. exact (proj1 args_brand_nonvacuous). Qed.
+
+Example C12_args_share_brand_discriminates :
+  ModelSigs.brands_agree [LElided; LNamed "'gc"] = false.
+Proof. exact (proj1 anonymous_context_fails). Qed.
